@@ -507,6 +507,8 @@ def run(ctx):
     nhist += resulthistory.replay(ctx, ["solve_ivp:rk4", "solve_ivp:rk45", "solve_ivp:rk23", "solve_ivp:alias", "solve_ivp:alias45"], "ivp")
     from vlib import layoutinv
     nhist += layoutinv.replay(ctx, ["solve_ivp:rk4", "solve_ivp:rk45", "solve_ivp:rk23"], "ivp")
+    from vlib import bufferreuse
+    nhist += bufferreuse.replay(ctx, ["solve_ivp:rk4", "solve_ivp:rk45"], "ivp")
     ctx.samples.append({"cfg": traces[0]["cfg"], "events": traces[0]["ev"][:6]})
     ctx.replayed = nfix + nhist
     ctx.notes.update(fixed_exact_cases=nfix, adaptive_runs=len(traces), try_events=sum(len(t_["ev"]) for t_ in traces), fixed_numeric_cases=nnum)
